@@ -165,7 +165,13 @@ just an ordinary member), each with its `parents` chain — `cls.__mro__` withou
   of classes shares the table of the topmost class of the chain, so implementations attached at different
   levels override one another.
 
-The flat model above is the special case "one class declares points, all others only datasources"; the
+"Is a datasource" is a flag of the entry (`isDs`), computed by the harness as `issubclass(type, datasource)` on
+the real component type: registration looks at nothing else about the type — an implementation decorated with a
+SPECIALISED datasource type (`class audited_datasource(datasource)`, two levels deep, extra class attributes) is
+wired, overrides and supplies exactly like a plain one, and a component of a type that is merely NAMED
+"datasource" (`class datasource(dr.ComponentType)` elsewhere) is not wired at all.
+
+The flat model above (whose classes list datasource attributes only) is the special case "one class declares points, all others only datasources"; the
 driver evaluates both on such histories and reports whether they agree. -/
 
 abbrev ClassId := Nat
@@ -175,6 +181,7 @@ structure HEntry where
   comp : Comp
   isPoint : Bool            -- `name = RegistryPoint()` rather than a datasource
   ctxs : List Comp          -- `_get_ctx_dependencies(comp)` when the class is created ([] for a fresh RegistryPoint)
+  isDs : Bool               -- `is_datasource(v)`: the component's TYPE is `datasource` or a subclass of it, at any depth
 deriving DecidableEq, Repr
 
 structure HClass where
@@ -224,7 +231,8 @@ def hRegEntry (k : ClassId) (ps : List ClassId) (r : HReg) (e : HEntry) : HReg :
     hAttach ps e.name e.comp e.ctxs
       { r with registry := fun k' m => if k' = k ∧ m = e.name then some e.comp else r.registry k' m
                isPoint := fun x => if x = e.comp then true else r.isPoint x }
-  else hAttach ps e.name e.comp e.ctxs r
+  else if e.isDs then hAttach ps e.name e.comp e.ctxs r
+  else r                                     -- `if is_datasource(v):` — anything else in the class body is left alone
 
 def hRegClass (r : HReg) (cd : HClass) : HReg :=
   let r' := cd.entries.foldl (hRegEntry r.nclasses cd.parents) r
